@@ -429,6 +429,8 @@ void roundTrip(vh::Ctx& c, const Manifold& m, const std::string& how, bool hasTa
     std::string info;
     std::string d = compareMeshes(g, g2, false, info);
     if (!d.empty()) { viol("roundtrip64:" + d + ":" + runTag, info); clean = false; }
+    // evidence only: the corner-value oracle does not depend on how property vertices are shared
+    if (g2.vertProperties.size() != g.vertProperties.size()) c.count("roundtrips64_with_different_vertex_row_count");
     if (!(g2.tolerance >= g.tolerance) || !(m2.GetTolerance() >= m.GetTolerance())) {
       viol("roundtrip64:tolerance-smaller", vd::fmt(g.tolerance) + " -> " + vd::fmt(g2.tolerance));
       clean = false;
@@ -562,7 +564,7 @@ void roundTrip(vh::Ctx& c, const Manifold& m, const std::string& how, bool hasTa
   // ---- OBJ (a sample of the harvested values; the obj stage stresses magnitudes)
   if (nt <= 1500 && c.rng.chance(0.35)) clean = runObj(c, m, g, how, program) && clean;
 
-  if (clean || true) {
+  {
     int b = 0;
     for (size_t x = nt; x > 1; x >>= 1) b++;
     c.sig(kind + "#" + runTag + (tang ? "T" : "") + (back ? "B" : "") + (normals ? "N" : "") + (g.mergeFromVert.empty() ? "" : "S") + (g.numProp > 3 ? "P" : "") + "#" + std::to_string(b / 2));
